@@ -4,8 +4,8 @@
 package parties
 
 import (
-	"errors"
 	"context"
+	"errors"
 	"fmt"
 	"io"
 	"io/fs"
@@ -170,6 +170,8 @@ func (r *SimReader) read(p []byte) (int, error) {
 			e = context.Canceled
 		case "deadline":
 			e = os.ErrDeadlineExceeded // Timeout() == true
+		case "temporary":
+			e = &TemporaryErr{ID: r.nerr} // Temporary() == true, like EAGAIN / EINTR
 		}
 		if r.FirstErr == nil {
 			r.FirstErr, r.FirstErrAt, r.FirstErrWith = e, before, r.pos
@@ -200,13 +202,14 @@ func (r *SimReader) fault(kind string) {
 // ("ueof", "weof") are not included: only C18 uses those, with its own bookkeeping.
 func IsReaderFault(err error) bool {
 	var inj *InjectedErr
-	return errors.As(err, &inj) || errors.Is(err, io.ErrClosedPipe) || errors.Is(err, os.ErrClosed) ||
+	var tmp *TemporaryErr
+	return errors.As(err, &inj) || errors.As(err, &tmp) || errors.Is(err, io.ErrClosedPipe) || errors.Is(err, os.ErrClosed) ||
 		errors.Is(err, io.ErrNoProgress) || errors.Is(err, context.Canceled) || errors.Is(err, os.ErrDeadlineExceeded)
 }
 
 // SentinelAs are the values GenReadOps may give a reader fault instead of a distinct injected
 // error.
-var SentinelAs = []string{"closedpipe", "osclosed", "noprogress", "canceled", "deadline"}
+var SentinelAs = []string{"closedpipe", "osclosed", "noprogress", "canceled", "deadline", "temporary"}
 
 // HasErrOps reports whether the op list contains an error outcome at all.
 func HasErrOps(ops []ReadOp) bool {
